@@ -78,6 +78,7 @@ TRUSTED = [
 ASSUMPTIONS = [
     "PARTIAL: structural MPD rules (required attributes per MPD@type, id uniqueness, no empty AdaptationSet, URL-template identifiers, lexical validity of the typed attributes of whole documents) are decided by exploration of the real application, not by proof",
     "'attributes required for its MPD@type' is read as the attributes whose presence ISO/IEC 23009-1 Table 3 ties to the type: profiles and minBufferTime always, availabilityStartTime and publishTime for dynamic, mediaPresentationDuration or a duration on every Period for static. The type-independent clause (mediaPresentationDuration when neither minimumUpdatePeriod nor the last Period@duration is present) is not part of the property; dynamic manifests with mup<=0 and manifest_ef.mpd do omit all three.",
+    "stream layouts: track ids are distinct across content types (the video AdaptationSet is always id 1) and no two text files share a track id - what the multi-period tables enforce with a unique (period, track id) constraint; single-period streams outside this are ledger D25a/D25b (replayed every run). Audio files may share track ids and mix codec families.",
     "explicit start instants are <= now and carry a UTC offset of at most +-14:00 (ledger D18-offset-beyond-14h, D19-start-after-now are replayed every run); clockDrift small",
     "hostile strings are drawn from XML-legal characters (no C0 controls other than tab): & < > \" ' ]]> markup fragments, URL and Jinja metacharacters, non-ASCII, long",
     "Host headers: whatever a WSGI environ can carry (latin-1); Werkzeug 3.1 replaces a syntactically invalid Host by an empty host name",
@@ -456,11 +457,38 @@ def fixed_cases(thorough: bool = False):
                     out.append({"kind": kind, "manifest": name, "mode": mode, "stream": stream, "query": q,
                                 "rawquery": False, "host": "localhost", "now": "2024-05-06T07:08:09Z",
                                 "stored": {}, "hostile": []})
+    # track-layout grid: streams whose audio / video / text files share or spread track ids and codec
+    # families x every template x mode x track-selection options (what the grouping code looks at)
+    k = 0
+    for stream in sorted(W.LAYOUTS) + ["c05mpl", "c05mpe"]:
+        multi = stream.startswith("c05")
+        audio = [] if multi else W.media_of(stream)["audio"]
+        vectors = [[["acodec", "any"]], [["acodec", "ec-3"]], [["abr", "0"], ["acodec", "any"]], [],
+                   [["acodec", "any"], ["drm", "all"]]]
+        if audio:
+            vectors.append([["acodec", "any"], ["main_audio", audio[-1]], ["ad_audio", audio[0]]])
+        for name, mft in W.manifests().items():
+            for mode in mft["modes"]:
+                if multi and mode == "odvod":
+                    continue
+                k += 1
+                chosen = vectors if thorough else [vectors[0], vectors[1 + k % (len(vectors) - 1)]]
+                for v in chosen:
+                    q = [list(x) for x in v] + ([["depth", "20"]] if mode == "live" else [])
+                    if mode == "live" and "patch" in mft["features"] and k % 2 == 0:
+                        q.append(["patch", "1"])
+                    out.append({"kind": "multi" if multi else "single", "manifest": name, "mode": mode,
+                                "stream": stream, "query": q, "rawquery": False, "host": "localhost",
+                                "now": "2024-05-06T07:08:09Z", "stored": {}, "hostile": []})
     for q in ([], [["depth", "20"], ["x", "<y>&\"'"]]):
         c = {"kind": "patch", "manifest": "hand_made.mpd", "mode": "live", "stream": "bbb", "query": q,
              "rawquery": False, "host": "localhost", "now": "2024-05-06T07:08:09Z", "publish": 1714979280,
              "stored": {}, "hostile": ["q:1"] if q else []}
         out.append(c)
+    for stream in sorted(W.LAYOUTS):
+        out.append({"kind": "patch", "manifest": "hand_made.mpd", "mode": "live", "stream": stream,
+                    "query": [["depth", "20"], ["acodec", "any"]], "rawquery": False, "host": "localhost",
+                    "now": "2024-05-06T07:08:09Z", "publish": 1714979280, "stored": {}, "hostile": []})
     return out
 
 
@@ -489,7 +517,7 @@ def ch_manifest_lex(ctx, bodies_out: list | None = None) -> Channel:
         "& < > \" ' (or a typed-attribute comparison); distinct by full case"))
     rng = ctx.rng("manifest_lex")
     cases = corpus_cases() + fixed_cases(ctx.thorough)
-    n = ctx.scale(1400, 14000)
+    n = ctx.scale(1000, 13000)
     cases += [W.gen_case(rng, hostile=rng.random() < .8) for _ in range(n)]
     lex_lines, lex_meta = [], []
     for case in cases:
@@ -891,6 +919,10 @@ def matches_finding(finding, failure):
     if cls == "offset-beyond-14h":
         return (start is not None and _offset_minutes(start) > 840 and
                 all(f["rule"] == "R4-dateTime" and _offset_minutes(f.get("value", "")) > 840 for f in fails))
+    if cls == "track-id-collision":
+        # only the layouts kept outside the generators, and nothing but colliding AdaptationSet ids
+        return (case.get("stream") in env().W.LAYOUTS_OUTSIDE and
+                all(f["rule"] == "R5-unique-id" and f["what"].startswith("duplicate AdaptationSet@id") for f in fails))
     if cls == "start-after-now":
         try:
             from dashlive.utils.date_time import from_isodatetime
